@@ -57,6 +57,9 @@ type c05Case struct {
 	BaseMode string `json:"base_mode,omitempty"` // goat | indep: how the message is built
 	ReuseHow string `json:"reuse_how,omitempty"` // overwrite | clear | refill | refill-same-length | untouched
 	Seed2    uint64 `json:"seed2,omitempty"`
+	// mode "transcode" (c05_transcode.go)
+	Chain    []string `json:"chain,omitempty"`     // serializers applied in turn to the parsed object: Compact | MarshalJSON
+	NonCanon string   `json:"non_canon,omitempty"` // "" | auth (protected/aad text with trailing bits) | seg (iv/ct/tag/ek text with trailing bits)
 }
 
 var c05PTShapes = []string{"empty", "one", "aligned16", "aligned32", "minus1", "plus1", "large", "incompressible", "compressible"}
@@ -227,6 +230,8 @@ func execC05(c *vf.Ctx, d *vf.Driver, cs c05Case) {
 		execC05Alias(c, d, cs)
 	case "reuse":
 		execReuse(c, d, cs, "c05")
+	case "transcode":
+		execTranscode(c, d, cs, "c05")
 	}
 }
 
@@ -740,7 +745,7 @@ func buildIndep(cs c05Case) (e *c05Env, m *jMessage, data []byte, ser string, pt
 	var algs []string
 	var r *vf.Rand
 	e, algs, pt, r = c05Setup(cs)
-	spec := jMessageSpec{Enc: cs.Enc, Zip: cs.Zip, Plaintext: pt, Placement: cs.Placement, EncPlace: cs.EncPlace, NoProt: cs.NoProt}
+	spec := jMessageSpec{Enc: cs.Enc, Zip: cs.Zip, Plaintext: pt, Placement: cs.Placement, EncPlace: cs.EncPlace, NoProt: cs.NoProt, NonCanon: cs.NonCanon == "auth"}
 	if cs.AAD != "" {
 		spec.AAD, _ = hex.DecodeString(cs.AAD)
 	}
@@ -1172,6 +1177,12 @@ func runC05(c *vf.Ctx) {
 	for rep := 0; rep < c.Budget(40, 300); rep++ {
 		for _, how := range c05ReuseHows {
 			jobs = append(jobs, genReuse(r, how))
+		}
+	}
+	// transcoding stream: every parse entry point x every serializer on the parsed object, chains of up to three
+	for rep := 0; rep < c.Budget(12, 120); rep++ {
+		for _, chain := range c05Chains {
+			jobs = append(jobs, genTranscode(r, chain))
 		}
 	}
 	jobs = append(zipJobs, jobs...) // the long ones first
